@@ -172,3 +172,30 @@ Fixpoint sv_history (c : sv_cfg) (fuel : nat) (ops : list hop) (s : sv_state) : 
   | HPass :: rest => let '(s', os) := pass (sv_machine c) fuel s in
                      (os, sv_pulls s' - sv_pulls s) :: sv_history c fuel rest s'
   end.
+
+(* ---- DictsGeneratorView: fromdicts(<generator>) ---------------------------------------------------------- *)
+(* the one-shot generator is shared by all iterators; rows already drawn are kept in a spill file (a log);
+   `dg_cached` = number of rows in the log, an iterator holds its own position in the log *)
+Record dg_state := { dg_header : row; dg_rows : list row; dg_cached : nat }.
+Inductive dg_iter := DgFresh | DgAt (pos : nat) | DgDone.
+
+Definition dg_machine : vmachine dg_state dg_iter :=
+  {| vm_iter := fun s => (s, DgFresh);
+     vm_next := fun s i =>
+       match i with
+       | DgFresh => (s, DgAt O, ORow (dg_header s))
+       | DgAt pos =>
+           if (pos <? dg_cached s)%nat then
+             match nth_error (dg_rows s) pos with
+             | Some r => (s, DgAt (Datatypes.S pos), ORow r)
+             | None => (s, DgDone, ORaise OtherErr)
+             end
+           else
+             match nth_error (dg_rows s) (dg_cached s) with
+             | Some r => ({| dg_header := dg_header s; dg_rows := dg_rows s; dg_cached := Datatypes.S (dg_cached s) |},
+                          DgAt (Datatypes.S (dg_cached s)), ORow r)
+             | None => (s, DgDone, OStop)
+             end
+       | DgDone => (s, DgDone, OStop)
+       end |}.
+Definition dg_init (hdr : row) (rows : list row) : dg_state := {| dg_header := hdr; dg_rows := rows; dg_cached := O |}.
